@@ -69,13 +69,20 @@ type delInfo struct {
 	MaxTX  int  `json:"maxTX"`  // and ends at this TXID
 }
 
+// reencInfo: one member of the "corrupted but decodable" family: plan file File re-encoded with the pages Pgnos damaged
+// in style Style; header, page index and file checksum of the result are all valid.
 type reencInfo struct {
-	File      int    `json:"file"`
-	Pgno      int    `json:"pgno"`
-	Path      string `json:"path"`      // re-encoded plan file (valid LTX, one page damaged)
-	SqliteBad bool   `json:"sqliteBad"` // PRAGMA quick_check of the database it restores to fails
-	OK        bool   `json:"ok"`
-	Note      string `json:"note"`
+	File        int    `json:"file"`
+	Pgnos       []int  `json:"pgnos"`
+	Style       string `json:"style"` // garbage | zero | ptr (b-tree header kept, cell pointers wrong) | bthdr (0xFF over the b-tree header)
+	Label       string `json:"label"` // which page: p1 | root | leaf | last | two
+	Path        string `json:"path"`
+	BadQuick    bool   `json:"badQuick"`    // PRAGMA quick_check of the database it restores to does not answer "ok"
+	BadFull     bool   `json:"badFull"`     // same for PRAGMA integrity_check
+	PragmaFails bool   `json:"pragmaFails"` // the PRAGMA statement itself fails (e.g. "database disk image is malformed")
+	Differs     bool   `json:"differs"`     // the restored database differs from the reference at all
+	OK          bool   `json:"ok"`
+	Note        string `json:"note"`
 }
 
 type repMeta struct {
@@ -89,7 +96,7 @@ type repMeta struct {
 	NPages   int               `json:"npages"`
 	Refs     map[string]string `json:"refs"` // txid -> database restored from the intact replica
 	Del      []delInfo         `json:"del"`
-	Reenc    reencInfo         `json:"reenc"`
+	Reencs   []reencInfo       `json:"reencs"`
 	Anchored bool              `json:"anchored"` // intact restore == source database (page by page)
 	PrePath  string            `json:"prePath"`  // content used for pre-existing outputs
 }
@@ -119,6 +126,7 @@ type tcase struct {
 	ID     int     `json:"id"`
 	Rep    int     `json:"rep"`
 	Kind   string  `json:"kind"` // intact trunc flip delete missing reenc readfault
+	Var    int     `json:"var"`  // reenc: index into repMeta.Reencs
 	File   int     `json:"file"`
 	Off    int64   `json:"off"`
 	Mask   int     `json:"mask"`
@@ -138,6 +146,7 @@ type obs struct {
 	I          int       `json:"i"`
 	Rep        int       `json:"rep"`
 	Kind       string    `json:"kind"`
+	Var        int       `json:"var"`
 	File       int       `json:"file"`
 	Off        int64     `json:"off"`
 	Mask       int       `json:"mask"`
@@ -149,6 +158,7 @@ type obs struct {
 	Errc       string    `json:"errc"`
 	Msg        string    `json:"msg"`
 	OutExists  bool      `json:"outExists"`
+	SideLeft   bool      `json:"sideLeft"` // <output>-wal or <output>-shm exists afterwards
 	TmpExists  bool      `json:"tmpExists"`
 	Out        []int     `json:"out"`
 	Ref        []int     `json:"ref"`
@@ -475,8 +485,46 @@ func describeLTX(path string) (frames []int64, pgnos []int, pbEnd int64, err err
 	return frames, pgnos, pbEnd, nil
 }
 
-// reencode rewrites an LTX file with page `pgno` replaced by garbage; header, page index, file checksum are all valid.
-func reencode(src, dst string, pgno int) error {
+// damage rewrites one page image in place.
+func damage(d []byte, pgno int, style string, rnd *rand.Rand) {
+	h := 0
+	if pgno == 1 {
+		h = 100
+	}
+	switch style {
+	case "zero":
+		for i := range d {
+			d[i] = 0
+		}
+	case "ptr":
+		// keep the b-tree page header, point every cell at the last bytes of the page
+		typ := d[h]
+		if typ == 2 || typ == 5 || typ == 10 || typ == 13 {
+			n := int(d[h+3])<<8 | int(d[h+4])
+			arr := h + 8
+			if typ == 2 || typ == 5 {
+				arr = h + 12
+			}
+			for k := 0; k < n && arr+2*k+1 < len(d); k++ {
+				v := len(d) - 3
+				d[arr+2*k], d[arr+2*k+1] = byte(v>>8), byte(v)
+			}
+		} else {
+			for i := h; i < h+16 && i < len(d); i++ {
+				d[i] = 0xFF
+			}
+		}
+	case "bthdr":
+		for i := h; i < h+64 && i < len(d); i++ {
+			d[i] = 0xFF
+		}
+	default: // garbage
+		rnd.Read(d)
+	}
+}
+
+// reencode rewrites an LTX file with the pages `pgnos` damaged; header, page index, file checksum are all valid.
+func reencode(src, dst string, pgnos []int, style string, seed int64) error {
 	in, err := os.Open(src)
 	if err != nil {
 		return err
@@ -517,23 +565,42 @@ func reencode(src, dst string, pgno int) error {
 	if err := enc.EncodeHeader(hdr); err != nil {
 		return err
 	}
-	found := false
+	rnd := rand.New(rand.NewSource(seed))
+	found := 0
 	for _, p := range pages {
-		if int(p.h.Pgno) == pgno {
-			found = true
-			for i := range p.d {
-				p.d[i] = byte(0xC3 ^ i)
+		for _, want := range pgnos {
+			if int(p.h.Pgno) == want {
+				found++
+				damage(p.d, want, style, rnd)
 			}
 		}
 		if err := enc.EncodePage(ltx.PageHeader{Pgno: p.h.Pgno}, p.d); err != nil {
 			return err
 		}
 	}
-	if !found {
-		return fmt.Errorf("page %d not in file", pgno)
+	if found != len(pgnos) {
+		return fmt.Errorf("pages %v not all in file", pgnos)
 	}
 	enc.SetPostApplyChecksum(dec.Trailer().PostApplyChecksum)
 	return enc.Close()
+}
+
+// pragmaCheck runs the PRAGMA with the harness's own SQLite: bad = anything but a single "ok"; fails = the statement errors.
+func pragmaCheck(ctx context.Context, path, pragma string) (bad, fails bool) {
+	qd, err := sql.Open("sqlite", path)
+	if err != nil {
+		return true, true
+	}
+	defer func() {
+		qd.Close()
+		os.Remove(path + "-wal")
+		os.Remove(path + "-shm")
+	}()
+	var res string
+	if err := qd.QueryRowContext(ctx, "PRAGMA "+pragma).Scan(&res); err != nil {
+		return true, true
+	}
+	return res != "ok", false
 }
 
 func buildReplica(ctx context.Context, root string, sp repSpec) (rm repMeta, err error) {
@@ -688,51 +755,100 @@ func buildReplica(ctx context.Context, root string, sp repSpec) (rm repMeta, err
 		rm.Del = append(rm.Del, di)
 		os.RemoveAll(cp)
 	}
-	// corrupted-but-decodable: damage the root page of t in the last plan file that carries it
-	rm.Reenc = reencInfo{File: -1}
+	// corrupted-but-decodable family: every LTX integrity tag valid, the database content damaged
+	rm.Reencs = []reencInfo{}
+	refBytes, _ := os.ReadFile(rm.Refs[fmt.Sprint(rm.Latest)])
 	var rootPg int
-	if e := sqldb.QueryRowContext(ctx, "SELECT rootpage FROM sqlite_master WHERE name = 't'").Scan(&rootPg); e == nil {
-		for i := len(rm.Plan) - 1; i >= 0 && rm.Reenc.File < 0; i-- {
-			for _, pg := range rm.Plan[i].Pgnos {
-				if pg == rootPg {
-					rm.Reenc.File, rm.Reenc.Pgno = i, rootPg
-					break
+	_ = sqldb.QueryRowContext(ctx, "SELECT rootpage FROM sqlite_master WHERE name = 't'").Scan(&rootPg)
+	leafPg := 0
+	for pg := 2; pg < rm.NPages; pg++ { // a table leaf other than t's root and the last page (t is the only table with rows)
+		if pg != rootPg && refBytes[(pg-1)*sp.PS] == 0x0D {
+			leafPg = pg
+			break
+		}
+	}
+	lastCarrier := func(pg int) int { // the last plan file that carries the page: its image is the one restored
+		for i := len(rm.Plan) - 1; i >= 0; i-- {
+			for _, q := range rm.Plan[i].Pgnos {
+				if q == pg {
+					return i
 				}
 			}
 		}
+		return -1
 	}
-	if rm.Reenc.File >= 0 {
-		rm.Reenc.Path = filepath.Join(dir, "reenc.ltx")
-		if e := reencode(filepath.Join(rm.Dir, rm.Plan[rm.Reenc.File].Rel), rm.Reenc.Path, rm.Reenc.Pgno); e != nil {
-			rm.Reenc.Note = "reencode: " + e.Error()
-		} else {
+	type target struct {
+		label string
+		file  int
+		pgnos []int
+	}
+	var targets []target
+	for _, t := range []struct {
+		label string
+		pg    int
+	}{{"p1", 1}, {"root", rootPg}, {"leaf", leafPg}, {"last", rm.NPages}} {
+		if t.pg >= 1 {
+			if f := lastCarrier(t.pg); f >= 0 {
+				targets = append(targets, target{t.label, f, []int{t.pg}})
+			}
+		}
+	}
+	if p0 := rm.Plan[0].Pgnos; len(p0) >= 2 { // two pages of the first (snapshot) file at once
+		// prefer pages whose restored image comes from this file (no later plan file carries them)
+		var own, all []int
+		for _, q := range p0 {
+			if q == 1 {
+				continue
+			}
+			all = append(all, q)
+			if lastCarrier(q) == 0 {
+				own = append(own, q)
+			}
+		}
+		pick := own
+		if len(pick) < 2 {
+			pick = all
+		}
+		if len(pick) >= 2 {
+			targets = append(targets, target{"two", 0, []int{pick[0], pick[len(pick)-1]}})
+		}
+	}
+	for _, tg := range targets {
+		for _, style := range []string{"garbage", "zero", "ptr", "bthdr"} {
+			ri := reencInfo{File: tg.file, Pgnos: tg.pgnos, Style: style, Label: tg.label}
+			ri.Path = filepath.Join(dir, fmt.Sprintf("reenc-%d.ltx", len(rm.Reencs)))
+			rel := rm.Plan[tg.file].Rel
+			if e := reencode(filepath.Join(rm.Dir, rel), ri.Path, tg.pgnos, style, sp.Seed+int64(len(rm.Reencs))); e != nil {
+				ri.Note = "reencode: " + e.Error()
+				rm.Reencs = append(rm.Reencs, ri)
+				continue
+			}
 			cp := filepath.Join(tmp, "reenc")
-			if err = linkTree(rm.Dir, cp, rm.Plan[rm.Reenc.File].Rel); err != nil {
+			os.RemoveAll(cp)
+			if err = linkTree(rm.Dir, cp, rel); err != nil {
 				return
 			}
-			if err = copyFile(rm.Reenc.Path, filepath.Join(cp, rm.Plan[rm.Reenc.File].Rel)); err != nil {
+			if err = copyFile(ri.Path, filepath.Join(cp, rel)); err != nil {
 				return
 			}
 			c := file.NewReplicaClient(cp)
 			c.SetLogger(discard)
 			out := filepath.Join(tmp, "reenc.db")
+			os.Remove(out)
 			if e := restoreTo(ctx, c, out, 0, 0); e != nil {
-				rm.Reenc.Note = "restore of re-encoded input failed: " + short(e.Error(), 120)
+				ri.Note = "restore of re-encoded input failed: " + short(e.Error(), 120)
 			} else {
-				rm.Reenc.OK = true
-				qd, e := sql.Open("sqlite", out)
-				if e == nil {
-					var res string
-					if e := qd.QueryRowContext(ctx, "PRAGMA quick_check").Scan(&res); e != nil || res != "ok" {
-						rm.Reenc.SqliteBad = true
-					}
-					qd.Close()
-				}
+				ri.OK = true
+				ob, _ := os.ReadFile(out)
+				ri.Differs = !bytes.Equal(ob, refBytes)
+				var f1, f2 bool
+				ri.BadQuick, f1 = pragmaCheck(ctx, out, "quick_check")
+				ri.BadFull, f2 = pragmaCheck(ctx, out, "integrity_check")
+				ri.PragmaFails = f1 || f2
 			}
 			os.RemoveAll(cp)
 			os.Remove(out)
-			os.Remove(out + "-wal")
-			os.Remove(out + "-shm")
+			rm.Reencs = append(rm.Reencs, ri)
 		}
 	}
 	os.RemoveAll(tmp)
@@ -776,7 +892,7 @@ func modeBuild(specPath, work string) error {
 func caseDir(work string, id int) string { return filepath.Join(work, fmt.Sprintf("c%d", id)) }
 
 func baseObs(c *tcase, rm *repMeta, refs map[string][]int) obs {
-	o := obs{T: c.ID, Rep: c.Rep, Kind: c.Kind, File: c.File, Off: c.Off, Mask: c.Mask, Integ: c.Integ, Pre: c.Pre,
+	o := obs{T: c.ID, Rep: c.Rep, Kind: c.Kind, Var: c.Var, File: c.File, Off: c.Off, Mask: c.Mask, Integ: c.Integ, Pre: c.Pre,
 		NF: len(c.Faults), Cls: c.Cls, Errc: "none", Msg: "", Out: []int{}, Ref: []int{}, Opens: [][]int64{}, Exp: c.Exp,
 		Detectable: true, PreSame: true}
 	refTX := rm.Latest
@@ -791,9 +907,11 @@ func baseObs(c *tcase, rm *repMeta, refs map[string][]int) obs {
 	case "missing":
 		o.MustErr = true
 	case "reenc":
-		// All integrity tags of the input are valid: without a SQLite integrity check nothing can tell it from a
-		// genuine replica, and the "original" it encodes IS the damaged database.
-		o.Detectable = c.Integ != 0 && rm.Reenc.SqliteBad
+		// All integrity tags of the input are valid: only the SQLite integrity check that was asked for can tell it
+		// from a genuine replica (the "original" it encodes IS the damaged database).  Detectable = that PRAGMA, run
+		// by the harness's own SQLite on the database this input restores to, does not answer "ok".
+		ri := rm.Reencs[c.Var]
+		o.Detectable = (c.Integ == 1 && ri.BadQuick) || (c.Integ == 2 && ri.BadFull) || !ri.Differs
 	}
 	if c.Pre {
 		o.MustErr = true
@@ -815,6 +933,11 @@ func postObserve(o *obs, dir string, rm *repMeta, d *core.Dict) {
 	}
 	if _, err := os.Lstat(out + ".tmp"); err == nil {
 		o.TmpExists = true
+	}
+	for _, sfx := range []string{"-wal", "-shm"} {
+		if _, err := os.Lstat(out + sfx); err == nil {
+			o.SideLeft = true
+		}
 	}
 	if o.Pre {
 		b, err := os.ReadFile(out)
@@ -842,7 +965,7 @@ func prepare(c *tcase, rm *repMeta, dir string) (repDir string, err error) {
 		}
 		var b []byte
 		if c.Kind == "reenc" {
-			b, err = os.ReadFile(rm.Reenc.Path)
+			b, err = os.ReadFile(rm.Reencs[c.Var].Path)
 		} else {
 			b, err = os.ReadFile(filepath.Join(rm.Dir, victim))
 		}
